@@ -241,11 +241,7 @@ pub fn from_seeds<Q: Qx>(thorough: bool) -> Vec<CellDef> {
                 let plus = (k >> 64) & 1 == 1;
                 let (a, b) = vpcore::k2(k);
                 let before = M::Val(sd[si]);
-                let after = m_add::<Q>(before, prod::<Q>(a, b), plus);
-                if after == M::Out {
-                    return Out::skip();
-                }
-                let got = guard(|| {
+                let after = m_add::<Q>(before, prod::<Q>(a, b), plus);                let got = guard(|| {
                     let mut q = Q::from_w(&sd[si]);
                     if plus {
                         q.add_prod(p_of::<Q>(a), p_of::<Q>(b))
@@ -254,6 +250,10 @@ pub fn from_seeds<Q: Qx>(thorough: bool) -> Vec<CellDef> {
                     }
                     observe(&q)
                 });
+                if after == M::Out {
+                    // the property says nothing here; the totality pass (C16) still executes the operation
+                    return if vpcore::total_mode() { Out::executed(got) } else { Out::skip() };
+                }
                 Out::cmp(got, expect::<Q>(after), nontrivial::<Q>(before, after)).ops(5)
             },
         ));
@@ -277,11 +277,7 @@ pub fn from_seeds<Q: Qx>(thorough: bool) -> Vec<CellDef> {
                 let plus = (k >> 64) & 1 == 1;
                 let a = k as u32;
                 let before = M::Val(sd2[si]);
-                let after = m_add::<Q>(before, single::<Q>(a), plus);
-                if after == M::Out {
-                    return Out::skip();
-                }
-                let got = guard(|| {
+                let after = m_add::<Q>(before, single::<Q>(a), plus);                let got = guard(|| {
                     let mut q = Q::from_w(&sd2[si]);
                     if plus {
                         q.add_p(p_of::<Q>(a))
@@ -290,6 +286,10 @@ pub fn from_seeds<Q: Qx>(thorough: bool) -> Vec<CellDef> {
                     }
                     observe(&q)
                 });
+                if after == M::Out {
+                    // the property says nothing here; the totality pass (C16) still executes the operation
+                    return if vpcore::total_mode() { Out::executed(got) } else { Out::skip() };
+                }
                 Out::cmp(got, expect::<Q>(after), nontrivial::<Q>(before, after)).ops(5)
             },
         ));
@@ -680,11 +680,7 @@ pub fn q8_state_space<Q: Qx>(thorough: bool) -> Vec<CellDef> {
             let plus = (k >> 64) & 1 == 1;
             let (a, b) = vpcore::k2(k);
             let before = decode_state::<Q>(&w);
-            let after = m_add::<Q>(before, prod::<Q>(a, b), plus);
-            if after == M::Out {
-                return Out::skip();
-            }
-            let got = guard(|| {
+            let after = m_add::<Q>(before, prod::<Q>(a, b), plus);            let got = guard(|| {
                 let mut q = Q::from_w(&w);
                 if plus {
                     q.add_prod(p_of::<Q>(a), p_of::<Q>(b))
@@ -693,6 +689,10 @@ pub fn q8_state_space<Q: Qx>(thorough: bool) -> Vec<CellDef> {
                 }
                 observe(&q)
             });
+            if after == M::Out {
+                // the property says nothing here; the totality pass (C16) still executes the operation
+                return if vpcore::total_mode() { Out::executed(got) } else { Out::skip() };
+            }
             Out::cmp(got, expect::<Q>(after), nontrivial::<Q>(before, after)).ops(5)
         },
     ));
@@ -797,11 +797,7 @@ pub fn window_states<Q: Qx>(thorough: bool) -> Vec<CellDef> {
             let (sgn, r) = (si & 1, si >> 1);
             let wv = umk((((r / per_p) * per + r % per_p) << 1) | sgn);
             let before = decode_state::<Q>(&wv);
-            let after = m_add::<Q>(before, prod::<Q>(a, b), plus);
-            if after == M::Out {
-                return Out::skip();
-            }
-            let got = guard(|| {
+            let after = m_add::<Q>(before, prod::<Q>(a, b), plus);            let got = guard(|| {
                 let mut q = Q::from_w(&wv);
                 if plus {
                     q.add_prod(p_of::<Q>(a), p_of::<Q>(b))
@@ -810,6 +806,10 @@ pub fn window_states<Q: Qx>(thorough: bool) -> Vec<CellDef> {
                 }
                 observe(&q)
             });
+            if after == M::Out {
+                // the property says nothing here; the totality pass (C16) still executes the operation
+                return if vpcore::total_mode() { Out::executed(got) } else { Out::skip() };
+            }
             Out::cmp(got, expect::<Q>(after), nontrivial::<Q>(before, after)).ops(5)
         },
     ));
